@@ -465,7 +465,7 @@ func Check() *common.Check {
 			"ParseWithRecovery, parse past the recursion limit, ApplyOptions strict / mysql, Reset, Release, PutParser with the same object then used as the next holder's, NewParser) and the tokenizer alphabet " +
 			"(11 operations: Tokenize valid / unterminated string / comments / larger than MaxInputSize, TokenizeContext cancelled / cancelled at the 4th poll, SetDialect, SetLogger, Reset, PutTokenizer, New) of length 0..4 (quick) / 0..5 (thorough), " +
 			"each executed from a newly constructed instance with the reference configuration in lock-step, followed by each of 15 parser (two of them ParseWithPositions on hand-built conversion results without / with a short position table, three of them observing where the context is polled and where a cancellation at the 4th / 9th poll lands) / 9 tokenizer probes (three of them inputs without a token) on its own re-execution; plus one-operation histories feeding 24 statements of kinds outside the model grammar (utility, session, role, dialect statements), every corpus file under /repo/testdata, every proper token prefix of 10 statements and 6 inputs nested past the depth limit to each of 4 parse entry points, " +
-			"and every byte prefix of 3 inputs to both tokenize entry points; pool hand-out: every history of length <=5 (6) over 9 pool operations (GetParser, configure + parse, PutParser, Release + PutParser, ParseMultiWithRecovery, RecoveryResult.Release once / again, GetTokenizer, use + PutTokenizer) on the real pools (one P, collector off): no instance owned twice at any step or in the final drain, every parser handed out answers the probes like a new one; distinct = distinct history; non-trivial = at least two operations",
+			"and every byte prefix of 3 inputs to both tokenize entry points; keyword shadows (the process-wide scratch buffer of the token conversion): for every keyword K of the identifier-keyword list of token_conversion.go, K with its last 2 / 3 bytes (thorough: any 2 / 3 bytes after the first) replaced by one non-ASCII letter, statement-initial and in a clause position, through each of 4 parse entry points, after a parse whose last converted word is K, K in upper case, or an identifier with K's bytes at the replaced offsets, compared with the same call after a parse whose last word overwrites the whole buffer; pool hand-out: every history of length <=5 (6) over 9 pool operations (GetParser, configure + parse, PutParser, Release + PutParser, ParseMultiWithRecovery, RecoveryResult.Release once / again, GetTokenizer, use + PutTokenizer) on the real pools (one P, collector off): no instance owned twice at any step or in the final drain, every parser handed out answers the probes like a new one; distinct = distinct history; non-trivial = at least two operations",
 		Assume: []string{
 			"reference model: configuration = (strict, dialect) for a parser, (dialect) for a tokenizer; New/Get/Put give the default, ApplyOptions/SetDialect update it, Parser.Reset gives the default (documented: clears the state for reuse from the pool), Parser.Release keeps it (same holder), Tokenizer.Reset keeps the dialect (documented 'Keywords preserved'; Tokenize calls it)",
 			"after PutParser/PutTokenizer the same pointer stands for what the next holder obtains from the pool (sync.Pool may hand out exactly that object)",
@@ -482,6 +482,7 @@ func Check() *common.Check {
 				depth = 5
 			}
 			enumeratePool(e)
+			enumerateShadow(e)
 			pm, prun := parserMachine()
 			tm, trun := tokenizerMachine()
 			histories(len(pm.ops), depth, func(h []int) {
